@@ -927,8 +927,14 @@ void Lexer::lexIntegerOrFloatingConstant(SyntaxToken* tk)
             }
             while (yychar_ >= '0' && yychar_ <= '7');
 
-            lexIntegerOrImaginaryIntegerSuffix(tk, yytext_ - yytext);
-            return;
+            // A decimal floating constant may start with a zero (6.4.4.2).
+            if (!std::isdigit(yychar_)
+                    && yychar_ != '.'
+                    && yychar_ != 'e'
+                    && yychar_ != 'E') {
+                lexIntegerOrImaginaryIntegerSuffix(tk, yytext_ - yytext);
+                return;
+            }
         }
     }
 
